@@ -152,6 +152,7 @@ impl Prop for Random {
             cursor = off + s;
             let sp = t.below(6) as u8;
             fields.push(Field {
+                sty: 0,
                 vis: t.chance(1, 2),
                 name: if t.chance(1, 8) { "_".into() } else { format!("f{i}") },
                 ty,
@@ -175,6 +176,7 @@ impl Prop for Random {
             _ => Some(t.small(64)),
         };
         let td = TypeDef {
+            sty: (t.below(4) as u8) | if t.chance(1, 4) { 0x80 } else { 0 },
             vis: true,
             name: "T".into(),
             size: size.map(|v| Num { v: v as i128, sp: 0 }),
@@ -184,6 +186,7 @@ impl Prop for Random {
                 Some(Vft {
                     size: None,
                     funcs: vec![Func {
+                        sty: 0,
                         vis: true,
                         name: "vf".into(),
                         doc: vec![],
@@ -233,7 +236,7 @@ impl Prop for Grid {
         "C03/grid".into()
     }
     fn rule(&self) -> String {
-        "exhaustive grid: up to 2 fields x address x size x align x packed x vftable x width (value sets in checks/c03.rs, larger in the thorough tier); same oracle as C03/random; every grid point is distinct; non-trivial: >=2 fields or >=1 attribute".into()
+        "exhaustive grid: up to 2 fields x address x size x align x packed x vftable x width (x attribute order/grouping where packed and align meet) (value sets in checks/c03.rs, larger in the thorough tier); same oracle as C03/random; every grid point is distinct; non-trivial: >=2 fields or >=1 attribute".into()
     }
     fn gen(&self, _t: &mut Tape) -> Case {
         unreachable!()
@@ -293,9 +296,13 @@ impl Prop for Grid {
                                         fields.push(fl);
                                     }
                                 }
+                                // attribute order and bracket grouping: both orders of packed/align
+                                let stys: &[u8] = if packed && *al >= 0 { &[0, 2, 0x82] } else { &[0] };
+                                for sty in stys {
                                 out.push(Case {
                                     w,
                                     t: TypeDef {
+                                        sty: *sty,
                                         vis: true,
                                         name: "T".into(),
                                         size: (*s >= 0).then(|| Num::d(*s as i128)),
@@ -305,10 +312,11 @@ impl Prop for Grid {
                                             size: None,
                                             funcs: vec![],
                                         }),
-                                        fields,
+                                        fields: fields.clone(),
                                         ..Default::default()
                                     },
                                 });
+                                }
                             }
                         }
                     }
